@@ -9,10 +9,16 @@
 // accept the block. The workload holds storage histories (directed.go: slots
 // set, cleared and read again, reads of never-written slots, a contract with
 // storage that self-destructs and is re-created at the same address in the same
-// or a later block), validator reports handed to every replica in its own order
+// or a later block), creation histories (creations.go: CREATE, CREATE2 and creation
+// transactions whose init code fails in every way, aimed at addresses that hold a
+// balance and are not touched otherwise in that block, and used in later blocks),
+// validator reports handed to every replica in its own order
 // (valreports.go) and chains longer than the 128 state layers a node keeps in
 // memory (long.go: snapshot layers flattened and merged into the disk layer,
-// tries garbage-collected). ValidatorSet.UpdateWithChangeSet must not depend on
+// tries garbage-collected; one replica with a small dirty-cache allowance whose
+// trie nodes are written to disk by triedb.Cap, beside an archive replica; one
+// replica reopened with the snapshot switched on while the chain is busy, so that
+// it executes blocks while its snapshot is still being generated). ValidatorSet.UpdateWithChangeSet must not depend on
 // the order of the change set. A simulated multi-node network with
 // heterogeneous cache configurations executes transaction-carrying blocks on
 // every node.
@@ -122,11 +128,12 @@ func readFingerprints(dir, group string) map[int][]string {
 
 func Main() {
 	r := core.Start("C06", "exploration")
-	r.SetRule("case = generated genesis (1-6 staking validators, EOAs, value-moving and environment-recording contracts, a storage-churn contract, a CREATE2 factory whose child reads its slots before writing them and can self-destruct) + a chain of 3-10 blocks (group long: 178-207 blocks, thorough up to 300) built by CreateProposalBlock from a replica's pool or by hand with invalid transactions mixed in (before / at / after the Galaxias fork), applied with ValidateBlock+SaveBlock+ApplyBlock on 4 (quick) or 6 (thorough) replicas: different cache configurations, always at least one with and one without the snapshot tree, some stopped and reopened from their databases at random heights or before the last block, long-running ones beside them; groups valreports / corpus: a validator report (members leave, join, swap with equal or own power, change power, unchanged) at most heights, handed to every replica in its own order (validator-set order, its reverse, by address, shuffled); group long: > 128 blocks with a few thousand slot writes per block in the first part, so that snapshot layers are flattened and merged into the disk layer and tries are garbage-collected, with slots and contracts written early, cleared / destroyed later and read / re-created after those changes reached the disk layer; non-trivial = a height whose block produced at least one receipt and was compared on all replicas; distinct by (case, height)")
+	r.SetRule("case = generated genesis (1-6 staking validators, EOAs, value-moving and environment-recording contracts, a storage-churn contract, a CREATE2 factory whose child reads its slots before writing them and can self-destruct, two forges (CREATE / CREATE2 of init code given in the call data, optionally reverting afterwards), a probe logging BALANCE / EXTCODESIZE / EXTCODEHASH of an address, balance-only accounts at the forges' creation addresses and at the EOAs' first 40 creation-transaction addresses) + a chain of 3-10 blocks (group long: 178-207 blocks, thorough up to 300) built by CreateProposalBlock from a replica's pool or by hand with invalid transactions mixed in (before / at / after the Galaxias fork), applied with ValidateBlock+SaveBlock+ApplyBlock on 4 (quick) or 6 (thorough) replicas: different cache configurations, always at least one with and one without the snapshot tree, some stopped and reopened from their databases at random heights or before the last block, long-running ones beside them; groups valreports / corpus: a validator report (members leave, join, swap with equal or own power, change power, unchanged) at most heights, handed to every replica in its own order (validator-set order, its reverse, by address, shuffled); creation workload in every chain (every block of a short chain, every fifth of a long one; fixed script in two corpus scenarios): creations through CREATE, CREATE2 and creation transactions whose init code ends in REVERT / invalid opcode / out of gas / stack underflow / oversize code / code-deposit out of gas, or succeeds inside a call frame that then reverts, aimed at addresses funded in the genesis state or by an earlier transfer and placed last in the block (nothing else touches the address in that block), then in later blocks (preferably the next) transfers to the address, probe calls, a creation at the same address that succeeds and a call that makes the new contract pay out; group long: > 128 blocks with a few thousand slot writes per block in the first part, so that snapshot layers are flattened and merged into the disk layer and tries are garbage-collected, with slots and contracts written early, cleared / destroyed later and read / re-created after those changes reached the disk layer; long-chain replicas: 0 = long-running with the snapshot, 1 = long-running trie-only with TrieDirtyLimit 1 MB (beyond block 128 triedb.Cap writes its oldest trie nodes to disk, tens of MB at the first call, observed through state roots appearing in its database although it is never stopped), 2 = stopped and reopened, 3 = an archive configuration (chains 0 mod 3), or a node started without the snapshot and reopened up to 8 times during the busy part alternately with the snapshot in background generation (node-defaults / archive-node, SnapshotWait=false as backend.go passes) and without it (chains 1 mod 3; the ballast contract holds 10000 more slots in the genesis state, so generation lasts about as long as a block; reopened replicas apply the block first; the generator's own progress record in the database tells whether it was still running before and after the block), or any configuration; non-trivial = a height whose block produced at least one receipt and was compared on all replicas; distinct by (case, height)")
 	r.Assume("commits are produced by signing precommits with the validator keys (consensus itself is not run in the replica groups; the simulated-network group runs it)")
 	r.Assume("which transactions a proposer picks and in which order is not part of the property (pool iteration order is random by design); only the result of executing a given block is compared, and runs are compared across processes only where they executed the same block")
 	r.Assume("validator reports in the replica groups are synthetic: the list the application returns is replaced, identically on all replicas but in replica-specific order, by a membership process over the genesis validators (all known to the staking contract); what ApplyBlock (calculateValidatorSetUpdates, updateState) makes of it is compared, not whether the staking contract would report it")
 	r.Assume("replica configurations are those a node can be started with (mainchain/backend.go copies cache sizes, NoPruning, NoPrefetch, Preimages and SnapshotCache into blockchain.CacheConfig; --cache.snapshot=0 runs without the snapshot tree; SnapshotWait=false, i.e. background generation, is what backend.go passes); a restart is BlockChain.Stop (snapshot journal, head tries) followed by NewBlockChain on the same database, as Kardiachain.Stop / New do; crashes are C05's subject")
+	r.Assume("how far the background snapshot generator has come when a block is executed is left to the scheduler (no hook stops it): whether a block overlaps with it is counted from the generator's progress record, not arranged; only the results of block execution are compared, and they must not depend on it")
 	r.Assume("the snapshot tree is driven only by the node's own calls (StateDB.Commit: Update + Cap(root, 128)): merges into the disk layer are reached by chains longer than 128 blocks whose early blocks change 4 MiB of state (ballast writes inside the block gas limit), not by calling Cap with another budget")
 
 	r.Cases("valset", r.N(300, 20000), core.Opts{Workers: 16}, valsetCase)
@@ -214,5 +221,29 @@ func Main() {
 	r.Floor("same_block_recreations_over_storage_in_the_disk_layer", 1)
 	r.Floor("comparisons_after_a_disk_merge:snapshot_vs_trie_only", 40)
 	r.Floor("comparisons_after_a_disk_merge:long_running_vs_restarted_since", 15)
+	// creation workload: failed creations of every kind onto funded addresses nothing else touched in that block, and later uses of those addresses, compared between replicas with and without the snapshot
+	r.Floor("failed_creations_onto_funded_untouched_addresses", 100)
+	r.Floor("failed_creations_onto_funded_untouched_addresses:create", 15)
+	r.Floor("failed_creations_onto_funded_untouched_addresses:create2", 20)
+	r.Floor("failed_creations_onto_funded_untouched_addresses:creation-tx", 20)
+	r.Floor("failed_creations_onto_funded_untouched_addresses:creation-in-a-reverted-call-frame", 5)
+	for _, k := range initKinds {
+		r.Floor("failed_creations_onto_funded_untouched_addresses:"+k, 5)
+	}
+	r.Floor("creation_addresses_funded_by_transfer", 20)
+	r.Floor("uses_of_addresses_after_a_failed_creation", 100)
+	r.Floor("uses_of_addresses_in_the_block_after_a_failed_creation", 40)
+	r.Floor("uses_of_addresses_after_a_failed_creation_compared_snapshot_vs_trie_only", 100)
+	r.Floor("uses_of_addresses_after_a_failed_creation:transfer", 20)
+	r.Floor("uses_of_addresses_after_a_failed_creation:probe", 30)
+	r.Floor("uses_of_addresses_after_a_failed_creation:successful-creation", 2)
+	// trie garbage collection: the replica with the small dirty-cache allowance flushed several full batches through triedb.Cap, and was compared afterwards
+	r.Floor("long_chains_with_a_trie_cap_flush", int64(r.N(2, 24)))
+	r.Floor("trie_cap_flushes_observed_on_the_gc_replica", 4)
+	r.Floor("trie_cap_flushes_of_several_full_batches", int64(r.N(2, 24)))
+	r.Floor("comparisons_after_a_trie_cap_flush:flushing_vs_long_running_replica", 60)
+	r.Floor("comparisons_after_a_trie_cap_flush:flushing_vs_archive_replica", 30)
+	// snapshot generation in the background while blocks are executed (scheduler-dependent: the floor is far below what is usually seen)
+	// (no floor on blocks_started_while_the_snapshot_generator_was_running: the overlap is up to the scheduler)
 	r.Finish()
 }
